@@ -4,4 +4,4 @@
 From LA Require Import FS.SafeWriteDefs.
 (* la_mktemp unlinks on fchmod failure; close_file_descriptor unlinks tmpname; a failed body write
    prevents the rename; lazy_stat falls back to tmpname *)
-Definition tree_variant : variant := mkVariant true true true false.
+Definition tree_variant : variant := mkVariant true true true true.
